@@ -9,6 +9,12 @@ Coordinates are rationals (every int and every float is one).  `o : CurveOracle`
 fontTools' numeric curve-extrema functions; theorems that involve curve bounds hold for every
 oracle obeying `CurveOracle.Lawful` (contains its curve, lies in the control box, commutes with
 translation) — the exact extrema box does, and so does `hullOracle` (theorem `oracle_laws_hold`).
+
+Section 7 is about glyphs WITH COMPONENTS: the whole-glyph laws, the component as the affine image
+of its base glyph's outline (points and area), `Glyph.move` and the margin setters as operations on
+a layer in which the glyph is looked up again, and the cache layer (`DefconModel/GeomCache.lean`:
+cached component bounds / control bounds and cached glyph area, evicted by edits of the base
+glyphs through every nesting level), which answers what the functional definition answers.
 -/
 import DefconModel.Lemmas.Geom
 
@@ -455,5 +461,192 @@ example : topMarginOf (Ex.composite.getBounds hullOracle Ex.world).1 (some ⟨-1
   decide +kernel
 example : (setLeftMargin (Ex.composite.getBounds hullOracle Ex.world).1 (some ⟨-110, -7 / 2, 110, 273 / 2⟩) 25).width = 435 := by
   decide +kernel
+
+/-! ## 7. Glyphs with components
+
+`w` is the layer the base glyphs are looked up in (by name, at the moment of drawing, as
+`DecomposingPen.addComponent` does); nesting is followed to any depth up to the fuel of `glyphCalls`. -/
+
+/-- `glyph.bounds` lies within `glyph.controlPointBounds` for the whole glyph — the union over its
+contours (cached or not, the caches being coherent) and over its components, each component being
+its base glyph's outline drawn through the 2×3 transformation, nested components included. -/
+theorem bounds_within_control_glyph {o : CurveOracle} (ho : o.Lawful) (w : World) (g : Glyph) (hg : g.CacheOK o)
+    (b cb : Option Box) (hb : (g.getBounds o w).2 = .ok b) (hcb : (g.getCpb w).2 = .ok cb) : OWithin b cb :=
+  Glyph.bounds_within_cpb ho w g hg hb hcb
+
+/-- What a glyph sends to a pen through `TransformPen(pen, t)` is, call by call, the `t`-image of what
+it sends directly — on every nesting level (the transformations of nested components compose). -/
+theorem transformed_glyph_draws_the_image (w : World) (fuel : Nat) (t : Transform) (g : Glyph) :
+    glyphCalls w fuel (some t) g = mapCalls (Call.transform t) (glyphCalls w fuel none g) :=
+  glyphCalls_some t w fuel g
+
+/-- A component is the affine image of its base glyph: every point `q` of the base glyph's outline
+(any parameter of any segment, nested components included) is mapped by the component's
+transformation into the component's `bounds` and `controlPointBounds` — bounds of the transformed
+outline, not transformed bounds (affine maps keep the convex combinations Bézier points are). -/
+theorem component_outline_within_bounds {o : CurveOracle} (ho : o.Lawful) (w : World) (k : Component) (bg : Glyph)
+    (cs0 : List Call) (hbase : AL.get? w.glyphs k.base = some bg) (hcs : glyphCalls w fuelDefault none bg = .ok cs0)
+    (q : Pt) (hq : OnPath none (expand cs0) q) :
+    (∃ b, k.bounds o w = .ok (some b) ∧ b.Has (k.t.apply q)) ∧
+    (∃ c, k.cpb w = .ok (some c) ∧ c.Has (k.t.apply q)) := by
+  have hcalls : componentCalls w k = .ok (cs0.map (Call.transform k.t)) := by
+    simp only [componentCalls, hbase, glyphCalls_some, hcs, mapCalls]
+  have hblocks : Blocks (expand (cs0.map (Call.transform k.t))) := Blocks.componentCalls w k _ hcalls
+  have hq' : OnPath none (expand (cs0.map (Call.transform k.t))) (k.t.apply q) := by
+    rw [expand_transform]
+    exact OnPath.transform k.t hq
+  constructor
+  · obtain ⟨b, hb, hh⟩ := onPath_in_bndBox ho hblocks _ hq'
+    exact ⟨b, by simp only [Component.bounds, hcalls, Except.map, hb], hh⟩
+  · obtain ⟨c, hc, hh⟩ := onPath_in_ctrlFold _ none none _ (by intro s c h; cases h) hq'
+    exact ⟨c, by simp only [Component.cpb, hcalls, Except.map]; exact congrArg _ hc, hh⟩
+
+/-- The signed area AreaPen accumulates for a component is the determinant of its transformation
+times the signed area of its base glyph's outline (so a flip — negative determinant — reverses the
+direction it counts with), and drawing the image raises no "open contour" error where the original
+raises none. -/
+theorem component_area_is_determinant_times_base (w : World) (k : Component) (bg : Glyph) (cs0 : List Call)
+    (hbase : AL.get? w.glyphs k.base = some bg) (hcs : glyphCalls w fuelDefault none bg = .ok cs0)
+    (herr : (areaRun false (expand cs0)).openErr = false) :
+    ∃ cs, componentCalls w k = .ok cs ∧ (areaRun false (expand cs)).openErr = false ∧
+      signedArea cs = k.t.det * signedArea cs0 := by
+  refine ⟨cs0.map (Call.transform k.t), ?_, ?_⟩
+  · simp only [componentCalls, hbase, glyphCalls_some, hcs, mapCalls]
+  · have := areaRun_transform k.t false (Blocks.glyphCalls w _ _ _ cs0 hcs) herr
+    simpa [signedArea, expand_transform] using this
+
+/-- The signed area of an outline is the sum over its parts (a glyph's own contours, then each
+component's contribution): AreaPen starts every sub path afresh. -/
+theorem area_adds_over_parts (a b : List Call) (hb : Blocks (expand b)) :
+    signedArea (a ++ b) = signedArea a + signedArea b ∧
+    (areaRun false (expand (a ++ b))).openErr =
+      ((areaRun false (expand a)).openErr || (areaRun false (expand b)).openErr) := by
+  simp only [signedArea, expand_append]
+  exact areaRun_append false (expand a) hb
+
+/-- `Glyph.move` as an operation on the layer: after `layer[n].move((dx, dy))` the glyph found under
+`n` is the moved one (contours, component offsets, anchors), and — the glyph not being built on
+itself — its `bounds` and `controlPointBounds` in the new layer are the old ones shifted by
+`(dx, dy)`, its `area` is the old one.  Any nesting depth of its components. -/
+theorem glyph_move_translates_in_layer {o : CurveOracle} (ho : o.Lawful) (w : World) (n : String) (g : Glyph)
+    (hg : AL.get? w.glyphs n = some g) (hself : g.Avoids w n) (dx dy : Rat) :
+    AL.get? (step o w (.gMove n dx dy)).1.glyphs n = some (g.move dx dy) ∧
+    ((g.move dx dy).getBounds o (step o w (.gMove n dx dy)).1).2 = (g.getBounds o w).2.map (Option.map (·.shift dx dy)) ∧
+    ((g.move dx dy).getCpb (step o w (.gMove n dx dy)).1).2 = (g.getCpb w).2.map (Option.map (·.shift dx dy)) ∧
+    (g.move dx dy).area (step o w (.gMove n dx dy)).1 = g.area w :=
+  gMove_in_layer ho hg hself dx dy
+
+/-- The four margin setters on a glyph that has components, as operations on the layer followed by
+reads: with `b` the glyph's bounds (contours and components) before,
+* `leftMargin = v`: the margins read `v`, old right, old bottom, old top; the width grew by `v - old left`;
+* `rightMargin = v`: old left, `v`, old bottom, old top; the width changed by `v - old right`;
+* `bottomMargin = v`: old left, old right, `v`, old top; the height changed by `v - old bottom`;
+* `topMargin = v`: old left, old right, old bottom, `v`; the height changed by `v - old top`;
+with and without a vertical origin; height resp. width otherwise untouched. -/
+theorem margin_laws_with_components {o : CurveOracle} (ho : o.Lawful) (w : World) (n : String) (g : Glyph)
+    (hg : AL.get? w.glyphs n = some g) (hself : g.Avoids w n) (b : Box) (v oldB oldT : Rat)
+    (hb : (g.getBounds o w).2 = .ok (some b)) (hB : bottomMarginOf g (some b) = some oldB)
+    (hT : topMarginOf g (some b) = some oldT) :
+    ((step o (step o w (.setLeft n v)).1 (.gMargins n)).2 =
+        .margins (some v) (rightMarginOf g (some b)) (some oldB) (some oldT) ∧
+      (step o (step o w (.setLeft n v)).1 (.gMetrics n)).2 = .metrics (g.width + (v - b.xMin)) g.height g.vo) ∧
+    ((step o (step o w (.setRight n v)).1 (.gMargins n)).2 =
+        .margins (some b.xMin) (some v) (some oldB) (some oldT) ∧
+      (step o (step o w (.setRight n v)).1 (.gMetrics n)).2 =
+        .metrics (g.width + (v - (g.width - b.xMax))) g.height g.vo) ∧
+    ((step o (step o w (.setBottom n v)).1 (.gMargins n)).2 =
+        .margins (some b.xMin) (rightMarginOf g (some b)) (some v) (some oldT) ∧
+      ∃ vo', (step o (step o w (.setBottom n v)).1 (.gMetrics n)).2 = .metrics g.width (g.height + (v - oldB)) vo') ∧
+    ((step o (step o w (.setTop n v)).1 (.gMargins n)).2 =
+        .margins (some b.xMin) (rightMarginOf g (some b)) (some oldB) (some v) ∧
+      ∃ vo', (step o (step o w (.setTop n v)).1 (.gMetrics n)).2 = .metrics g.width (g.height + (v - oldT)) vo') := by
+  refine ⟨?_, ?_, ?_, ?_⟩
+  · have := setLeft_in_layer ho hg hself b v hb
+    rwa [hB, hT] at this
+  · have := setRight_in_layer hg hself b v hb
+    rwa [hB, hT] at this
+  · have := setBottom_in_layer hg hself b v oldB hb hB
+    rwa [hT] at this
+  · have := setTop_in_layer hg hself b v oldT hb hT
+    rwa [hB] at this
+
+/-- Base edits are reflected.  Run any history — reads of bounds / control bounds / area / margins of
+glyphs and components, margin assignments, and edits of the glyphs they are built on: moves, point
+edits, reversals, start points, new transformations and base glyphs, deleting, re-adding and
+renaming glyphs, on any nesting level — once with the caches of the code (`crun`: component bounds
+and glyph areas answered from the tables, filled by reads, evicted by the notifications the edits
+post) and once with the functional definition (`xrun`: everything recomputed from the current
+outlines on every request).  The layers stay equal and every answer is the same. -/
+theorem base_edit_reflected (o : CurveOracle) (w0 : World) (ops : List XOp) :
+    (crun o { w := w0 } ops).1.w = (xrun o w0 ops).1 ∧ (crun o { w := w0 } ops).2 = (xrun o w0 ops).2 :=
+  ⟨(crun_refines (CWorld.OK.empty o w0) ops).1, (crun_refines (CWorld.OK.empty o w0) ops).2.1⟩
+
+/-- … because in every reachable state every cached component `bounds` / `controlPointBounds` and every
+cached glyph `area` equals what its factory computes from the current layer (the cached value is
+never stale: an edit of a base glyph has evicted it). -/
+theorem base_edit_reflected_in_caches (o : CurveOracle) (w0 : World) (ops : List XOp) :
+    (crun o { w := w0 } ops).1.OK o :=
+  (crun_refines (CWorld.OK.empty o w0) ops).2.2
+
+/-- In particular: after any history, what `glyph.bounds`, `glyph.controlPointBounds`, `glyph.area` and
+the margins of any glyph `n` answer through the caches is the recomputation over the layer as the
+history left it. -/
+theorem reads_after_base_edits_are_recomputations (o : CurveOracle) (w0 : World) (ops : List XOp) (n : String) :
+    (cstep o (crun o { w := w0 } ops).1 (.base (.gBounds n))).2 = (step o (xrun o w0 ops).1 (.gBounds n)).2 ∧
+    (cstep o (crun o { w := w0 } ops).1 (.base (.gCpb n))).2 = (step o (xrun o w0 ops).1 (.gCpb n)).2 ∧
+    (cstep o (crun o { w := w0 } ops).1 (.base (.gArea n))).2 = (step o (xrun o w0 ops).1 (.gArea n)).2 ∧
+    (cstep o (crun o { w := w0 } ops).1 (.base (.gMargins n))).2 = (step o (xrun o w0 ops).1 (.gMargins n)).2 := by
+  obtain ⟨h1, _, h3⟩ := crun_refines (CWorld.OK.empty o w0) ops
+  simp only at h1
+  rw [← h1]
+  exact ⟨(cstep_refines h3 _).2.1, (cstep_refines h3 _).2.1, (cstep_refines h3 _).2.1, (cstep_refines h3 _).2.1⟩
+
+/-- The cached representations of the contours stay coherent under the edits of the second layer too
+(a point edit drops them, the other edits leave the contours alone). -/
+theorem contour_caches_coherent_under_base_edits {o : CurveOracle} (ho : o.Lawful) (caching : Bool)
+    (ops : List XOp) (hops : ∀ op ∈ ops, op.fresh) :
+    (xrun o { caching := caching, glyphs := [] } ops).1.CacheOK o :=
+  xrun_cacheOK ho ops hops (by intro ng h; cases h)
+
+/-! Non-vacuity: three nesting levels with a flip of determinant -1/2 (`Ex.world3`); the whole-glyph
+boxes exist; the component's signed area is -1/2 times that of its base glyph; the glyph is not built
+on itself; the history `Ex.xhistory` (reads, then a point edit / move / reversal / new transformation /
+deletion / re-adding / renaming / new base of the glyphs `top` is built on, each followed by reads of
+`top`) runs without error, the boxes read after the edits differ, and it ends with filled caches. -/
+example : (Ex.top.getBounds hullOracle Ex.world3).2 = .ok (some ⟨-183 / 4, -273 / 2, 150, 140⟩) := by decide +kernel
+example : (Ex.top.getCpb Ex.world3).2 = .ok (some ⟨-183 / 4, -273 / 2, 150, 140⟩) := by decide +kernel
+example : (glyphCalls Ex.world3 fuelDefault none Ex.composite).map signedArea = .ok (-184555 / 12) := by decide +kernel
+example : (componentCalls Ex.world3 ⟨"comp", ⟨1 / 2, 0, 1 / 4, -1, 10, 0⟩⟩).map signedArea = .ok (184555 / 24) := by
+  decide +kernel
+example : (⟨1 / 2, 0, 1 / 4, -1, 10, 0⟩ : Transform).det = -1 / 2 := by decide +kernel
+example : (glyphCalls Ex.world3 fuelDefault none Ex.composite).map (fun cs => (areaRun false (expand cs)).openErr) =
+    .ok false := by decide +kernel
+example : Ex.top.Avoids Ex.world3 "top" := by
+  intro k hk
+  simp only [Ex.top, List.mem_cons, List.not_mem_nil, or_false] at hk
+  rcases hk with rfl | rfl <;> decide +kernel
+example : bottomMarginOf Ex.top (some ⟨-183 / 4, -273 / 2, 150, 140⟩) = some (-273 / 2) ∧
+    topMarginOf Ex.top (some ⟨-183 / 4, -273 / 2, 150, 140⟩) = some (-40) := by decide +kernel
+example : Ex.noErr (crun hullOracle {} Ex.xhistory).2 = true := by decide +kernel
+example : Ex.boxes (crun hullOracle {} Ex.xhistory).2 =
+    [some ⟨-183 / 4, -273 / 2, 150, 140⟩, some ⟨-183 / 4, -273 / 2, 150, 140⟩, some ⟨-110, -7 / 2, 40, 273 / 2⟩,
+     some ⟨-1277 / 8, -273 / 2, 725 / 2, 140⟩, some ⟨-1277 / 8, -137, 725 / 2, 281 / 2⟩,
+     some ⟨-110, -62, 725 / 2, 279⟩, some ⟨-110, 20, 110, 245⟩, some ⟨-110, 20, 110, 245⟩,
+     some ⟨-110, 20, 110, 245⟩, some ⟨7, 20, 227, 245⟩] := by decide +kernel
+example : (crun hullOracle {} Ex.xhistory).1.kb = [(("top", 1), none), (("top", 0), some ⟨7, 38, 187, 245⟩)] := by
+  decide +kernel
+example : ∀ op ∈ Ex.xhistory, op.fresh := by
+  intro op h
+  simp only [Ex.xhistory, List.mem_cons, List.not_mem_nil, or_false] at h
+  rcases h with rfl | rfl | rfl | rfl | rfl | rfl | rfl | rfl | rfl | rfl | rfl | rfl | rfl | rfl | rfl | rfl | rfl |
+      rfl | rfl | rfl | rfl | rfl | rfl | rfl | rfl | rfl | rfl <;>
+    first
+      | trivial
+      | (intro c hc
+         simp only [Ex.base, Ex.composite, Ex.top, List.mem_cons, List.not_mem_nil, or_false] at hc
+         first
+           | (rcases hc with rfl | rfl <;> exact ⟨rfl, rfl, rfl⟩)
+           | (rcases hc with rfl; exact ⟨rfl, rfl, rfl⟩)
+           | (subst hc; exact ⟨rfl, rfl, rfl⟩))
 
 end DefconModel.Props.C17
